@@ -106,6 +106,8 @@ struct Expect {
     adopt_sb_marks_from: usize,
     /// adopt all cells / marks / scrollback (after resize etc.)
     adopt_content: bool,
+    /// scrollback lines (by index) whose mark is specified although appended in this step
+    sb_spec: Vec<usize>,
 }
 
 #[derive(Debug)]
@@ -173,6 +175,7 @@ impl RefTerm {
             adopt_marks: vec![false; self.rows],
             adopt_sb_marks_from: self.scrollback.len(),
             adopt_content: false,
+            sb_spec: vec![],
         }
     }
 
@@ -255,6 +258,13 @@ impl RefTerm {
                 if left >= 1 && left - 1 >= self.top {
                     self.grid[left - 1].wrap = true;
                     ex.adopt_marks[left - 1] = false;
+                } else if left == 0 && !self.alt_showing() && !self.no_scrollback {
+                    // one-row region at the top of the primary screen: the row went
+                    // into the scrollback and takes its mark with it
+                    if let Some(l) = self.scrollback.last_mut() {
+                        l.wrap = true;
+                    }
+                    ex.sb_spec.push(self.scrollback.len() - 1);
                 }
             } else if self.row < self.rows - 1 {
                 self.grid[self.row].wrap = true;
@@ -969,7 +979,7 @@ impl RefTerm {
                         }
                     ));
                 }
-                if i >= ex.adopt_sb_marks_from {
+                if i >= ex.adopt_sb_marks_from && !ex.sb_spec.contains(&i) {
                     m.wrap = r.wrapped;
                 } else if m.wrap != r.wrapped {
                     return StepRes::Mismatch(format!(
